@@ -583,7 +583,14 @@ func (r *RowCache) uuidsByConditionsAsIndexes(conditions []ovsdb.Condition, nati
 		if err != nil {
 			return nil, err
 		}
+		columns := map[string]struct{}{}
 		for _, conditions := range conditions {
+			if _, found := columns[conditions.column]; found {
+				// more than one condition on the same column (different keys
+				// of a map) can not be represented in a single model
+				return nil, nil
+			}
+			columns[conditions.column] = struct{}{}
 			err := info.SetField(conditions.column, conditions.nativeValue)
 			if err != nil {
 				return nil, err
